@@ -182,7 +182,9 @@ def runPending (inp : RunInput) (nTasks : Nat) (pre : List Ev) (p : Name) : Bool
   pre.contains (Ev.getStatus p) && !(pre.any (Ev.isTerminalOf p)) && ranFirst inp nTasks pre p
 
 /-- `d` may be touched: it is selected, or a (static or delivered) task_dep / calc_dep of a justified task, or a
-    setup-task of a justified task that was `runPending` when `d` was first touched.  One closure round. -/
+    setup-task of a justified task that was `runPending` when `d` was first touched (a setup-task that is never
+    reported itself — the run stopped while its own dependencies were processed — must find its parent still
+    `runPending` at the end).  One closure round. -/
 def lazyOnce (inp : RunInput) (nTasks : Nat) (tr : List Ev) (cl : List Name) : List Name :=
   cl.foldl (fun acc t =>
     addNew acc (inp.taskDep t ++ calcsAt inp tr nTasks (inp.calcDep t) ++
@@ -191,7 +193,7 @@ def lazyOnce (inp : RunInput) (nTasks : Nat) (tr : List Ev) (cl : List Name) : L
       ((inp.setup t).filter fun d =>
         match firstMentionIdx tr d with
         | some i => runPending inp nTasks (tr.take i) t
-        | none => false))) cl
+        | none => runPending inp nTasks tr t))) cl
 
 def lazyIter (inp : RunInput) (nTasks : Nat) (tr : List Ev) : Nat → List Name → List Name
   | 0, cl => cl
